@@ -145,9 +145,10 @@ example : (effective sortedNames both "width", effective sortedNames both "tabs"
     effective sortedNames both "max-line-distance", effective sortedNames both "navigate",
     effective sortedNames both "file-style") =
     (.git "40", .git "4", .git "0.5", .git "true", .git "yellow") := by decide
--- a parameter text the typed getter does not take falls through to the file
-example : effective sortedNames { both with params := [("tabs", "x"), ("navigate", "yes")] } "tabs" = .git "3" ∧
-    effective sortedNames { both with params := [("tabs", "x"), ("navigate", "yes")] } "navigate" = .git "false" := by
+-- a parameter text git itself rejects for the type falls through to the file; a spelling git accepts
+-- (`yes`, `1k`) is read as git reads it (repaired by dee2b19: before, only `true` / `false` / plain digits counted)
+example : effective sortedNames { both with params := [("tabs", "x"), ("navigate", "maybe")] } "tabs" = .git "3" ∧
+    effective sortedNames { both with params := [("tabs", "x"), ("navigate", "maybe")] } "navigate" = .git "false" := by
   decide
 
 /-! ### A source sets an option iff the key is present — however the value is spelled -/
@@ -416,6 +417,19 @@ theorem params_git_spelling_not_read (hx : (parsersOf GType.bool.name).1 = "bool
       effective sortedNames paramsSpelled "tabs" = .git "3") := by
   revert hx
   decide
+
+/-- **The `GIT_CONFIG_PARAMETERS` half reads every value as git does — unconditionally on the repaired tree**
+    (fix dee2b19: the regenerated `getterParsers` rows are `git-bool` / `git-i64-as-usize`, checked here by
+    `decide` over the generated table; on a tree where they are not, this theorem no longer builds). With
+    `file_value_read_as_git`: whatever the spelling, a source of either half of the main section that holds the
+    key sets the option to git's reading of the value. -/
+theorem params_value_read_as_git_any (ty : GType) (v r : String)
+    (h : gitReading ty.name (some v) = some r) : envRead ty v = some r :=
+  params_value_read_as_git (by decide) ty v r h
+
+-- `git -c delta.navigate=no -c delta.tabs=1k` over `[delta] navigate = true, tabs = 3`: the parameters win
+example : effective sortedNames paramsSpelled "navigate" = .git "false" ∧
+    effective sortedNames paramsSpelled "tabs" = .git "1024" := by decide
 
 /-! ### The statements of `set_options` around the macro -/
 
